@@ -86,8 +86,9 @@ OnResult(ev) ==
   /\ st' = [st EXCEPT !.done = TRUE]
   /\ rej' = rej
        \* safety: a client that must abort never completes, and never reports the unoffered value
-       \cup (IF st.must # "" /\ ev.cok THEN Fail("safety", st.must) ELSE {})
-       \cup (IF st.must # "" /\ ~ev.cok /\ ev.corigin = "transport" /\ FlightComplete THEN Fail("timeout", st.must) ELSE {})
+       \* (hsok: the client's Handshake returned nil, whatever happened to the data exchange afterwards)
+       \cup (IF st.must # "" /\ (ev.cok \/ ev.hsok) THEN Fail("safety", st.must) ELSE {})
+       \cup (IF st.must # "" /\ ~ev.cok /\ ~ev.hsok /\ ev.corigin = "transport" /\ FlightComplete THEN Fail("timeout", st.must) ELSE {})
        \* progress: nothing wrong with the server's messages => the client completes and data round-trips
        \cup (IF st.must = "" /\ FlightComplete /\ ~ev.cok /\ ev.corigin \in {"local", "transport"}
              THEN Fail("progress", <<"client-abort-on-acceptable-flight", ev.corigin>>) ELSE {})
